@@ -504,10 +504,12 @@ impl Template {
                 (MaybeOpen | Key, c) if c.is_ascii_whitespace() => {
                     // If we find whitespace where the variable key is supposed to go,
                     // backtrack and act as if this was a literal.
-                    buf.push(c);
-                    let mut new = String::from("{");
-                    new.push_str(&buf);
-                    buf.clear();
+                    // In `MaybeOpen`, `buf` still holds the literal text in front of the brace.
+                    let mut new = match state {
+                        MaybeOpen => mem::take(&mut buf) + "{",
+                        _ => String::from("{") + &mem::take(&mut buf),
+                    };
+                    new.push(c);
                     parts.push(TemplatePart::Literal(TabExpandedString::new(
                         new.into(),
                         tab_width,
